@@ -187,6 +187,12 @@ fn check_one<CS: BbsCiphersuite>(rep: &Report, ck: &str, c: &Case) -> CheckResul
         proof.proof_verify(k, Some(dm2), Some(idx2), h, p).is_ok()
     };
 
+    // the proof OBJECT that came out of proof_gen is used for all statement edits below: it is verified honestly
+    // first (anything an object remembers from an accepted verification must not help a later, edited one) ...
+    rep.eval(ck, 1);
+    if !ver(&dm, &idx, hdr, phd, pk) {
+        return rep.fail(ck, "honest-proof-rejected", "the proof object returned by proof_gen does not verify".into(), cj());
+    }
     // ---- (a) statement edits ----------------------------------------------------------------
     // large statements: edits at sampled disclosed entries / target positions
     let ks: Vec<usize> = if l <= 12 || r_cnt <= 4 { (0..r_cnt).collect() } else { vec![0, r_cnt / 2, r_cnt - 1] };
@@ -311,6 +317,10 @@ fn check_one<CS: BbsCiphersuite>(rep: &Report, ck: &str, c: &Case) -> CheckResul
             let mut b4 = hb.clone();
             b4.insert(0, 0);
             edits.push(Some(b4));
+            if let Some(coll) = fnv1a32_collision(&hb, splitmix(&mut st)) {
+                // same length, same FNV-1a-32 value
+                edits.push(Some(coll));
+            }
         } else {
             edits.push(Some(vec![0x31]));
         }
@@ -333,6 +343,11 @@ fn check_one<CS: BbsCiphersuite>(rep: &Report, ck: &str, c: &Case) -> CheckResul
         }
         cx.expect_reject("pk-plus-g2", ver(&dm, &idx, hdr, phd, &BBSplusPublicKey(pk.0 + G2Projective::GENERATOR)), || "".into())?;
         cx.expect_reject("pk-negated", ver(&dm, &idx, hdr, phd, &BBSplusPublicKey(-pk.0)), || "".into())?;
+    }
+    // ... and once more after all the refused statements (anything it remembers from a refusal must not hurt)
+    rep.eval(ck, 1);
+    if !ver(&dm, &idx, hdr, phd, pk) {
+        return rep.fail(ck, "honest-proof-rejected-after-refusals", "the same proof object no longer verifies for its own statement after edited statements were refused on it".into(), cj());
     }
     // whole-scalar framing edits: remove / duplicate / insert a 32-byte chunk at every position
     let n_chunks = (pb.len() - 144) / 32; // e^, r1^, r3^, m^_1..m^_U, c
@@ -751,8 +766,8 @@ pub fn run(ctx: &Ctx, rep: &Report) -> Meta {
     }
     run_cases(ctx, rep, "edits-and-forgeries", ctx.tier.pick(64, 800), 100, strat, |c| check(rep, "edits-and-forgeries", c));
     Meta {
-        rule: "honest (pk, sig, msgs L=1..8, D, header, ph, proof) then (a) statement edits: every disclosed message changed / dropped, every disclosed index moved to every other position (as given and re-sorted), \
-               swaps, extra claims, list shapes (one more message than indexes, one more index than messages, a never-signed entry under an index that is already listed, before or after the genuine pair), header / ph edits and exchange, pk edits, every whole-scalar removal / duplication / insertion / append, cross-suite, blind interface; \
+        rule: "honest (pk, sig, msgs L=1..8, D, header, ph, proof) then (a) statement edits, all on the one proof object returned by proof_gen, verified honestly before and after them: every disclosed message changed / dropped, every disclosed index moved to every other position (as given and re-sorted), \
+               swaps, extra claims, list shapes (one more message than indexes, one more index than messages, a never-signed entry under an index that is already listed, before or after the genuine pair), header / ph edits (including one of the same length with the same FNV-1a-32 value) and exchange, pk edits, every whole-scalar removal / duplication / insertion / append, cross-suite, blind interface; \
                (b) single-bit flips of the proof octets (all bits for the all-bit-flips proofs with U in {0,1,3}; 96 sampled bits otherwise); \
                (c) attacker programs from public data only: Abar, Bbar in {O, Bv, P1, Q1, H1, rnd}^2 x D in {O, Bv, k*Bv, P1, rnd} with responses solving T1/T2 where possible, \
                the (P, t*P, k*Bv) family that only the pairing stops, points of cofactor order Q outside the subgroup (Abar = Q with Bbar in {-Q, Q, O, 2Q}, P+-Q, D = Bv + Q: pairs and triples that cancel in a sum), each as octets and as a serde-built object, plain and blind verifier; negative control t = sk must be accepted; \
